@@ -29,7 +29,7 @@ m = {
     'setup_cmd': 'python3 tools/warm.py',
     'hooks': {'guard': 'SUPERLU_VERIF',
               'enable': 'none: checks parse /repo sources with clang -fsyntax-only; no hook is compiled into the library',
-              'baseline_off_cmd': 'ctest --test-dir /repo/_build -j8 --timeout 900',
+              'baseline_off_cmd': 'cmake --build /repo/_build -j16 && ctest --test-dir /repo/_build -j8 --timeout 900',
               'source_commits': [], 'add_only': True},
     'engines': [{'name': 'slucheck', 'path': 'slucheck/', 'serves_properties': sorted(CLAIMS),
                  'kind_free_text': 'custom static analyser: clang 14 JSON AST -> compact IR -> own CFG, dataflow, '
